@@ -28,6 +28,10 @@ type actor struct {
 	caller context.Context
 	mu     sync.Mutex
 	Calls  []*rtCall
+	// perPath: the caller issues requests from several goroutines at once (the sharded client asking all
+	// shards); attempts are then numbered per request path, so that the numbering does not depend on
+	// which goroutine reached the transport first
+	perPath bool
 }
 
 func withActor(ctx context.Context, a *actor) context.Context {
@@ -172,10 +176,22 @@ func (t *transport) RoundTrip(req *http.Request) (*http.Response, error) {
 	c := &rtCall{Method: req.Method, Path: req.URL.Path, Query: req.URL.RawQuery, Body: body, Follow: req.Response != nil, Arrive: t.s.Now()}
 	a.mu.Lock()
 	c.Idx = len(a.Calls)
+	if a.perPath {
+		c.Idx = 0
+		for _, prev := range a.Calls {
+			if prev.Path == c.Path {
+				c.Idx++
+			}
+		}
+	}
 	a.Calls = append(a.Calls, c)
 	a.mu.Unlock()
+	obsParty := a.Party
+	if a.perPath {
+		obsParty += "@" + req.URL.Path // observations of parallel requests are kept apart: their order among each other is the Go scheduler's
+	}
 	if !t.s.ShuttingDown() && !t.s.Timed {
-		t.s.Observe(a.Party, fmt.Sprintf("attempt #%d %s %s follow=%v at %v", c.Idx, c.Method, c.Path, c.Follow, c.Arrive))
+		t.s.Observe(obsParty, fmt.Sprintf("attempt #%d %s %s follow=%v at %v", c.Idx, c.Method, c.Path, c.Follow, c.Arrive))
 	}
 	// ended records why an unanswered attempt came back: the caller's context, or only the
 	// request's (the per-attempt http.Client.Timeout)
@@ -190,7 +206,7 @@ func (t *transport) RoundTrip(req *http.Request) (*http.Response, error) {
 		timedOut := c.TimedOut
 		a.mu.Unlock()
 		if timedOut && !t.s.ShuttingDown() && !t.s.Timed {
-			t.s.Observe(a.Party, fmt.Sprintf("attempt #%d cancelled by the client's per-attempt timeout at %v", c.Idx, c.AbortT))
+			t.s.Observe(obsParty, fmt.Sprintf("attempt #%d cancelled by the client's per-attempt timeout at %v", c.Idx, c.AbortT))
 		}
 	}
 	if t.onArrive != nil {
